@@ -140,7 +140,7 @@ func vClientLines(now int64, full bool) []VLine {
 	add("part", "PART #c", "PART #C", "PART #d", "PART #c,#d", "PART #none", "PART #c :bye", "PART", "PART :", "PART ,")
 	add("kick", "KICK #c a", "KICK #c b", "KICK #c B", "KICK #c c", "KICK #c nobody", "KICK #d a", "KICK #d b", "KICK #c a :reason", "KICK #c b :", "KICK #c ChanServ", "KICK #none a", "KICK #c", "KICK", "KICK #c :", "KICK : :", "KICK #C a", "KICK #C b", "KICK #C c :x", "KICK #D b")
 	add("topic", "TOPIC #c", "TOPIC #c :", "TOPIC #c :new topic", "TOPIC #c new", "TOPIC #d :x", "TOPIC #d :", "TOPIC #C :t2", "TOPIC #none :x", "TOPIC #none", "TOPIC", "TOPIC :", "TOPIC #c a b", "TOPIC #c a :")
-	add("mode", "MODE #c", "MODE #c +i", "MODE #c -i", "MODE #c +k key", "MODE #c +k KEY", "MODE #c +k", "MODE #c -k", "MODE #c -k key", "MODE #c +b", "MODE #c b", "MODE #c +b a!*@*", "MODE #c +b b!*@*", "MODE #c -b b!*@*", "MODE #c -b a!*@*", "MODE #c -b *!*@robust/0x5", "MODE #c -b *!*@robust/0x8", "MODE #c +b *!*@robust/0x5", "MODE #c +b *!*@robust/0x8", "MODE #c +b *!*@10.0.0.*",
+	add("mode", "MODE #c", "MODE #c +i", "MODE #c -i", "MODE #c +k key", "MODE #c +k KEY", "MODE #c +k", "MODE #c -k", "MODE #c -k key", "MODE #c +b", "MODE #c b", "MODE #c +b a!*@*", "MODE #c +b b!*@*", "MODE #c -b b!*@*", "MODE #c -b a!*@*", "MODE #c +ikob sesame b", "MODE #c +bo b", "MODE #c +ob a", "MODE #c +bi", "MODE #c +bk sesame", "MODE #c -bo a", "MODE #c -b *!*@robust/0x5", "MODE #c -b *!*@robust/0x8", "MODE #c +b *!*@robust/0x5", "MODE #c +b *!*@robust/0x8", "MODE #c +b *!*@10.0.0.*",
 		"MODE #c +b *!*@robust/0x2", "MODE #c +b *!*@robust/0x5", "MODE #c +b *!*@robust/0xzz", "MODE #c +b [", "MODE #c +b (", "MODE #c +b \\", "MODE #c +o b", "MODE #c -o a", "MODE #c -o b", "MODE #c +o a", "MODE #c +o nobody", "MODE #c +o", "MODE #c +x", "MODE #c -x", "MODE #c +t", "MODE #c -t",
 		"MODE #c +n", "MODE #c -n", "MODE #c +s", "MODE #c -s", "MODE #c +t-t", "MODE #c +nst", "MODE #c +G", "MODE #c +z", "MODE #c +ob b a!*@*", "MODE #c +", "MODE #c -", "MODE #c :", "MODE #c o", "MODE #c +r", "MODE #c +d x", "MODE #d +i", "MODE #d +o a", "MODE #d -o b", "MODE #d +k k2",
 		"MODE a +i", "MODE a -i", "MODE a +G", "MODE a -G", "MODE b +i", "MODE b", "MODE a", "MODE a +o", "MODE a +", "MODE a :", "MODE", "MODE #none +i", "MODE nobody +i", "MODE ChanServ +i", "MODE A +i", "MODE a +iG", "MODE a +r",
